@@ -43,6 +43,16 @@ type Decision struct {
 	Checked bool // feasibility of current alternative already established
 	Solver  bool // binary solver-backed branch
 	Tag     string
+	Flip    bool // first alternative is the false side
+	AltModel map[*Term]*Term // model of the second alternative (already known feasible)
+	Lim     int // when >0: alternatives >= Lim were handed to other workers
+}
+
+func (d Decision) limit() int {
+	if d.Lim > 0 {
+		return d.Lim
+	}
+	return d.N
 }
 
 // ---------- frames & goroutines ----------
@@ -149,6 +159,9 @@ type Exec struct {
 	inInit   bool
 	pathVio  int
 	nondetN  int
+	model    map[*Term]*Term
+	modelOK  bool
+	ModelHits, ModelMiss int
 	ss       *schedState
 
 	// accumulated over the run of this worker/instance
@@ -201,6 +214,50 @@ func (e *Exec) check(extra *Term) string {
 	return r
 }
 
+// evalModel evaluates c under the cached model (extended with defaults for new variables).
+// Returns (value, true) when the model decides c.
+func (e *Exec) evalModel(c *Term) (bool, bool) {
+	if !e.modelOK {
+		return false, false
+	}
+	memo := map[*Term]*Term{}
+	r := e.tt.Subst(c, e.model, memo, func(v *Term) *Term {
+		var d *Term
+		switch v.Sort.K {
+		case KBool:
+			d = e.tt.False
+		case KBV:
+			d = e.tt.BV(v.Sort.W, 0)
+		case KInt:
+			d = e.tt.Int(0)
+		case KStr:
+			d = e.tt.Str("")
+		default:
+			return v
+		}
+		e.model[v] = d
+		return d
+	})
+	if b, ok := r.ConstBool(); ok {
+		return b, true
+	}
+	return false, false
+}
+
+// checkM is check() that refreshes the cached model after a sat answer.
+func (e *Exec) checkM(extra *Term) string {
+	r := e.check(extra)
+	if r == "sat" {
+		m, err := e.solver.Model()
+		if err == nil {
+			e.model, e.modelOK = m, true
+		} else {
+			e.modelOK = false
+		}
+	}
+	return r
+}
+
 // branch decides a symbolic condition; returns the side taken on this path.
 func (e *Exec) branch(c *Term) bool {
 	if b, ok := c.ConstBool(); ok {
@@ -210,22 +267,60 @@ func (e *Exec) branch(c *Term) bool {
 	if e.pos < len(e.trail) {
 		d := &e.trail[e.pos]
 		e.pos++
-		side := d.Choice == 0
+		side := (d.Choice == 0) != d.Flip
 		lit := c
 		if !side {
 			lit = tt.Not(c)
 		}
 		if !d.Checked {
 			d.Checked = true
-			if e.check(lit) == "unsat" {
-				e.fail(OutInfeasible, "")
+			if d.AltModel != nil && d.Choice == 1 {
+				// feasibility and a model were established when the decision was first met
+				e.model = make(map[*Term]*Term, len(d.AltModel))
+				for k, v := range d.AltModel {
+					e.model[k] = v
+				}
+				e.modelOK = true
+				e.ModelHits++
+			} else if mv, ok := e.evalModel(lit); ok && mv {
+				e.ModelHits++
+			} else {
+				e.ModelMiss++
+				if e.checkM(lit) == "unsat" {
+					e.fail(OutInfeasible, "")
+				}
+			}
+		} else {
+			// replayed prefix: keep the model only if it still satisfies the literal
+			if e.modelOK {
+				if mv, ok := e.evalModel(lit); !ok || !mv {
+					e.modelOK = false
+				}
 			}
 		}
 		e.pc = append(e.pc, lit)
 		return side
 	}
-	r := e.check(c)
 	e.pos++
+	if mv, ok := e.evalModel(c); ok {
+		// the model decides c: that side is feasible without a query; ask the solver about the other side now
+		e.ModelHits++
+		lit, other := c, tt.Not(c)
+		if !mv {
+			lit, other = other, c
+		}
+		d := Decision{N: 2, Choice: 0, Checked: true, Solver: true, Flip: !mv}
+		if e.check(other) == "unsat" {
+			d.Lim = 1
+		} else if m, err := e.solver.Model(); err == nil {
+			d.AltModel = m
+		}
+		e.trail = append(e.trail, d)
+		e.pc = append(e.pc, lit)
+		return mv
+	}
+	e.ModelMiss++
+	r := e.checkM(c)
 	if r != "unsat" {
 		e.trail = append(e.trail, Decision{N: 2, Choice: 0, Checked: true, Solver: true})
 		e.pc = append(e.pc, c)
@@ -262,7 +357,13 @@ func (e *Exec) assume(c *Term) {
 		}
 		return
 	}
-	if e.check(c) == "unsat" {
+	if mv, ok := e.evalModel(c); ok && mv {
+		e.ModelHits++
+		e.pc = append(e.pc, c)
+		return
+	}
+	e.ModelMiss++
+	if e.checkM(c) == "unsat" {
 		e.fail(OutAssumeFalse, "")
 	}
 	e.pc = append(e.pc, c)
